@@ -94,7 +94,10 @@ def gen_closure(rng, pot, hc_bias=0.3):
     else:
         hc = rng.random() < hc_bias
     alias = rng.random() < 0.2
-    return {'cls': cls, 'hc': hc, 'alias': alias}
+    out = {'cls': cls, 'hc': hc, 'alias': alias}
+    if rng.random() < 0.15:
+        out['flagkind'] = rng.choice(['np_bool', 'int'])
+    return out
 
 
 ALIAS = {'PercusYevick': 'PY', 'HyperNettedChain': 'HNC', 'MeanSphericalApproximation': 'MSA', 'MartynovSarkisov': 'MS'}
@@ -201,6 +204,8 @@ def make_domain(pp, dom):
 def potential_sigma(spec, a, b):
     """length scale of the pair's potential: its own if the user gave one, else the contact distance"""
     p = spec['pairs'][pkey(a, b)]
+    if p['potential'] is not None and p['potential']['kw'].get('sigma') is not None:
+        return p['potential']['kw']['sigma']  # written into the potential's own constructor arguments (C16 records)
     if p.get('potential_sigma_abs') is not None:
         return p['potential_sigma_abs']      # given explicitly at construction and kept through later diameter edits
     f = p.get('potential_sigma_factor')
@@ -234,7 +239,14 @@ def make_potential(pp, spec, a, b):
 
 def make_closure(pp, cspec):
     name = ALIAS[cspec['cls']] if cspec.get('alias') else cspec['cls']
-    return getattr(pp.closure, name)(apply_hard_core=bool(cspec['hc']))
+    flag = bool(cspec['hc'])
+    # the flag is documented as a bool; a numpy bool (result of a comparison) or 0/1 are what scripts actually pass
+    fk = cspec.get('flagkind', 'bool')
+    if fk == 'np_bool':
+        flag = np.bool_(flag)
+    elif fk == 'int':
+        flag = int(flag)
+    return getattr(pp.closure, name)(apply_hard_core=flag)
 
 
 def omega_values(ospec, k):
@@ -273,9 +285,11 @@ def build_system(pp, spec):
     s = pp.System(types, kT=spec['kT'])
     s.domain = make_domain(pp, spec['domain'])
     g = refgrid(spec)
+    # every key handed to a table is equal to, but not the same object as, the name the System was built with
+    fk = _fresh_key
     for t in types:
-        s.density[t] = spec['density'][t]
-        s.diameter[t] = spec['diameter'][t]
+        s.density[fk(t)] = spec['density'][t]
+        s.diameter[fk(t)] = spec['diameter'][t]
     bulk = spec.get('bulk') or {}
     prs = pairs(types)
     a0, b0 = prs[0]
@@ -289,11 +303,19 @@ def build_system(pp, spec):
         p = spec['pairs'][pkey(a, b)]
         plain = not p.get('explicit_sigma') and not p.get('potential_sigma_factor') and p.get('potential_sigma_abs') is None
         if not (bulk.get('potential') and plain0 and plain and p['potential'] == p0['potential']):
-            s.potential[a, b] = make_potential(pp, spec, a, b)
+            s.potential[fk(a), fk(b)] = make_potential(pp, spec, a, b)
         if not (bulk.get('closure') and p['closure'] == p0['closure']):
-            s.closure[a, b] = make_closure(pp, p['closure'])
-        s.omega[a, b] = make_omega(pp, p['omega'], g.k)
+            s.closure[fk(a), fk(b)] = make_closure(pp, p['closure'])
+        s.omega[fk(a), fk(b)] = make_omega(pp, p['omega'], g.k)
     return s
+
+
+def _fresh_key(k):
+    if isinstance(k, list):
+        return [_fresh_key(x) for x in k]
+    if isinstance(k, str):
+        return ''.join([c for c in k])
+    return k
 
 
 # ----------------------------------------------------------------------------- references
